@@ -178,3 +178,109 @@ input_merge_opt!(c14_in_merge_asset, asset, AssetId::from_byte_array(kani::any()
 //@ harness: c14_in_merge_blinded_issuance class=F tier=thorough
 //@ clause: Input::merge keeps blinded_issuance present in either operand, order-insensitive
 input_merge_opt!(c14_in_merge_blinded_issuance, blinded_issuance, kani::any::<u8>());
+
+// ---- BTreeMap fields: one entry per operand, identical or disjoint ----
+// Oracle (property text): the result contains every entry of either operand, nothing else, in both merge orders.
+macro_rules! input_merge_map {
+    ($name:ident, $field:ident, $mkk:expr, $mkv:expr) => {
+        #[kani::proof]
+        fn $name() {
+            let k1 = $mkk; let v1: Vec<u8> = $mkv;
+            let k2 = $mkk; let v2: Vec<u8> = $mkv;
+            let same = k1 == k2;
+            // identical or disjoint additions
+            kani::assume(!same || v1 == v2);
+            let mut a1 = Input::default(); let mut b1 = Input::default();
+            let mut a2 = Input::default(); let mut b2 = Input::default();
+            a1.$field.insert(k1.clone(), v1.clone()); a2.$field.insert(k1.clone(), v1.clone());
+            b1.$field.insert(k2.clone(), v2.clone()); b2.$field.insert(k2.clone(), v2.clone());
+            kani::cover!(same);
+            kani::cover!(!same);
+            match a1.merge(b1) { Ok(()) => {}, Err(e) => { fgt(e); assert!(false, "merge of conflict-free operands failed"); } }
+            match b2.merge(a2) { Ok(()) => {}, Err(e) => { fgt(e); assert!(false, "merge of conflict-free operands failed"); } }
+            let want_len = if same { 1 } else { 2 };
+            assert!(a1.$field.len() == want_len && b2.$field.len() == want_len, "union has exactly the entries of both operands");
+            assert!(a1.$field.get(&k1) == Some(&v1) && a1.$field.get(&k2) == Some(&v2), "merge(a,b) holds both entries");
+            assert!(b2.$field.get(&k1) == Some(&v1) && b2.$field.get(&k2) == Some(&v2), "merge(b,a) holds both entries");
+            fgt(a1); fgt(b2);
+        }
+    };
+}
+fn raw_key1() -> raw::Key {
+    let b: [u8; 1] = kani::any();
+    raw::Key { type_value: kani::any(), key: b.to_vec() }
+}
+fn prop_key1() -> raw::ProprietaryKey {
+    let p: [u8; 1] = kani::any();
+    let k: [u8; 1] = kani::any();
+    raw::ProprietaryKey { prefix: p.to_vec(), subtype: kani::any(), key: k.to_vec() }
+}
+fn val1() -> Vec<u8> {
+    let b: [u8; 1] = kani::any();
+    b.to_vec()
+}
+//@ harness: c14_in_merge_unknown class=B tier=quick bound="one entry per operand; key = symbolic type byte + 1 symbolic key byte; 1-byte values"
+//@ clause: Input::merge: the `unknown` pairs of the result are the union of the operands' unknown pairs, in both merge orders
+input_merge_map!(c14_in_merge_unknown, unknown, raw_key1(), val1());
+//@ harness: c14_in_merge_proprietary class=B tier=quick bound="one entry per operand; 1-byte prefix, symbolic subtype, 1-byte key; 1-byte values"
+//@ clause: Input::merge: the proprietary pairs of the result are the union of the operands' proprietary pairs, in both merge orders
+input_merge_map!(c14_in_merge_proprietary, proprietary, prop_key1(), val1());
+//@ harness: c14_in_merge_ripemd160_preimages class=B tier=thorough bound="one entry per operand; symbolic 20-byte hash keys (hash/preimage relation not required by merge); 1-byte values"
+//@ clause: Input::merge: RIPEMD160 preimages of the result are the union, in both merge orders
+input_merge_map!(c14_in_merge_ripemd160_preimages, ripemd160_preimages, ripemd160::Hash::from_byte_array(kani::any()), val1());
+//@ harness: c14_in_merge_sha256_preimages class=B tier=quick bound="one entry per operand; symbolic 32-byte hash keys; 1-byte values"
+//@ clause: Input::merge: SHA256 preimages of the result are the union, in both merge orders
+input_merge_map!(c14_in_merge_sha256_preimages, sha256_preimages, sha256::Hash::from_byte_array(kani::any()), val1());
+//@ harness: c14_in_merge_hash160_preimages class=B tier=thorough bound="one entry per operand; symbolic 20-byte hash keys; 1-byte values"
+//@ clause: Input::merge: HASH160 preimages of the result are the union, in both merge orders
+input_merge_map!(c14_in_merge_hash160_preimages, hash160_preimages, hash160::Hash::from_byte_array(kani::any()), val1());
+//@ harness: c14_in_merge_hash256_preimages class=B tier=thorough bound="one entry per operand; symbolic 32-byte hash keys; 1-byte values"
+//@ clause: Input::merge: HASH256 preimages of the result are the union, in both merge orders
+input_merge_map!(c14_in_merge_hash256_preimages, hash256_preimages, sha256d::Hash::from_byte_array(kani::any()), val1());
+
+// ---- interaction of the two UTXO fields (candidate disagreement found while reading Input::merge) ----
+//@ harness: c14_in_merge_utxo_pair_order class=B tier=quick bound="non_witness_utxo = empty transaction with symbolic version/lock time; witness_utxo = explicit TxOut"
+//@ clause: a has only non_witness_utxo, b has only witness_utxo (disjoint additions): both orders of Input::merge give the same result and both fields survive (EXPECTED to fail: merge(a,b) clears non_witness_utxo, merge(b,a) keeps it)
+#[kani::proof]
+fn c14_in_merge_utxo_pair_order() {
+    let tx = any_tx0();
+    let out = any_txout();
+    let mut a1 = Input::default(); a1.non_witness_utxo = Some(tx.clone());
+    let mut a2 = Input::default(); a2.non_witness_utxo = Some(tx.clone());
+    let mut b1 = Input::default(); b1.witness_utxo = Some(out.clone());
+    let mut b2 = Input::default(); b2.witness_utxo = Some(out.clone());
+    match a1.merge(b1) { Ok(()) => {}, Err(e) => { fgt(e); assert!(false); } }
+    match b2.merge(a2) { Ok(()) => {}, Err(e) => { fgt(e); assert!(false); } }
+    kani::cover!(true);
+    assert!(a1.witness_utxo == Some(out.clone()) && b2.witness_utxo == Some(out), "witness_utxo kept in both orders");
+    assert!(a1.non_witness_utxo == b2.non_witness_utxo, "result independent of which operand is merged into which");
+    assert!(a1.non_witness_utxo == Some(tx), "optional field present in an operand is present in the result");
+    fgt(a1); fgt(b2);
+}
+
+//@ harness: c14_in_merge_locktime_max class=F tier=quick
+//@ clause: Input::merge on two different required lock times of the same kind: result is order-insensitive and at least as constraining as both (the larger), never a panic
+#[kani::proof]
+fn c14_in_merge_locktime_max() {
+    let ta = if kani::any() { Some(any_time()) } else { None };
+    let tb = if kani::any() { Some(any_time()) } else { None };
+    let ha = if kani::any() { Some(any_height()) } else { None };
+    let hb = if kani::any() { Some(any_height()) } else { None };
+    let mut a1 = Input::default(); a1.required_time_locktime = ta; a1.required_height_locktime = ha;
+    let mut a2 = Input::default(); a2.required_time_locktime = ta; a2.required_height_locktime = ha;
+    let mut b1 = Input::default(); b1.required_time_locktime = tb; b1.required_height_locktime = hb;
+    let mut b2 = Input::default(); b2.required_time_locktime = tb; b2.required_height_locktime = hb;
+    match a1.merge(b1) { Ok(()) => {}, Err(e) => { fgt(e); assert!(false); } }
+    match b2.merge(a2) { Ok(()) => {}, Err(e) => { fgt(e); assert!(false); } }
+    assert!(a1.required_time_locktime == b2.required_time_locktime && a1.required_height_locktime == b2.required_height_locktime);
+    let tu = |x: Option<locktime::Time>| x.map(|t| t.to_consensus_u32());
+    let hu = |x: Option<locktime::Height>| x.map(|t| t.to_consensus_u32());
+    // oracle: present iff present in either; value = numeric max of those present
+    let want_t = match (tu(ta), tu(tb)) { (None, x) => x, (x, None) => x, (Some(x), Some(y)) => Some(if x > y { x } else { y }) };
+    let want_h = match (hu(ha), hu(hb)) { (None, x) => x, (x, None) => x, (Some(x), Some(y)) => Some(if x > y { x } else { y }) };
+    assert!(tu(a1.required_time_locktime) == want_t);
+    assert!(hu(a1.required_height_locktime) == want_h);
+    kani::cover!(ta.is_some() && tb.is_some() && ta != tb);
+    kani::cover!(ha.is_none() && hb.is_some());
+    fgt(a1); fgt(b2);
+}
